@@ -118,6 +118,13 @@ def build(case):
                 elif l["window"] == "whole":
                     line.logit_coords = [0, line.logits.shape[0]]
             line.transcription_confidence = l["prev_conf"]
+            if l["seed"] % 3 == 0:
+                # as loaded from PAGE XML: integer arrays; heights as an array (layout engine) instead of a list
+                line.baseline = np.round(line.baseline).astype(np.int64)
+                line.polygon = np.round(line.polygon).astype(np.int64)
+                line.heights = np.asarray(line.heights, dtype=np.float64)
+            elif l["seed"] % 3 == 1:
+                line.heights = tuple(line.heights)
             lines.append(line)
             n += 1
         if lines:
